@@ -67,7 +67,12 @@ def gen(rng, depth, pool, nd=False):
         e = ["**", gen(rng, depth - 1, pool, nd), ex]
     else:
         c = rng.random()
-        if c < 0.4:
+        if c < 0.25:
+            # a subscript with a compound index: 'arr[i + 1]', 'arr[2*i]' (the index is an expression like any other)
+            iv = ["var", rng.choice(["a", "b", "x"])]
+            e = ["sub", ["var", "arr"], rng.choice([["+", iv, ["num", 1]], ["*", ["num", 2], iv], iv,
+                                                    ["+", iv, ["var", rng.choice(["a", "c"])]]])]
+        elif c < 0.4:
             e = ["/", gen(rng, depth - 1, pool, nd), ["+", ["*", gen(rng, 0, pool), gen(rng, 0, pool)], ["num", 1]]]
         elif c < 0.7:
             e = ["if", ["cmp", "<", gen(rng, 1, pool), gen(rng, 1, pool)], gen(rng, depth - 1, pool, nd),
@@ -192,6 +197,9 @@ def check(expr, free, rec, deciding=True, after_failed=None):
             # with heavy cancellation ((b + a + c) + tiny + x*c at b + a + c = -x*c) moves a float result by 1e-8
             env = Env({n: Fraction(v) for n, v in store.items()}, UFuncs(salt), numconv=Fraction)
             env.decimal_powers = True
+            if "arr" in env.store:
+                import numpy as _np
+                env.store["arr"] = _np.array([Fraction(3 * k + 1 + pt, 2) for k in range(12)], dtype=object)
             try:
                 want = ev(expr, env)
                 pending = list(sas)
@@ -232,7 +240,7 @@ def run_shard(shard, rec):
         # (quotients, conditionals, max/min and comparisons were a non-deciding class at first; they never
         # disagreed on the unchanged tree and decide since round 12.  A valuation at which either side has no
         # value -- a constant hoisted out of a branch that is not taken may divide by zero -- is skipped)
-        deciding = not has(expr, {"sub"})
+        deciding = True
         for r in range(len(vs) + 1):
             for free in itertools.combinations(vs, r):
                 check(expr, list(free), rec, deciding,
